@@ -574,3 +574,11 @@ def run(ck):
         ck.ob('R2.7', 'signal-carries-nothing-or-the-value', ok, L.loc(asg[0]) if asg else L.loc(fnz['body']), 'a candidate is taken only if it has no argument or its first argument has the property\'s value type')
         ok = fin is not None and best is not None
         ck.ob('R2.7', 'no-candidate-is-an-error', ok, L.loc(rets[-1]) if rets else L.loc(fnz['body']), 'best.ok_or_else(InvalidNotifySignal)')
+
+    # the class a property claims to belong to is the class it was found in (C17 R17.11): the NOTIFY signal is looked up from there
+    import core as _core17
+    import rules.c17 as c17
+    s17 = _core17.Shared(ck, 'R2.7', lambda r, k: r == 'R17.11' and k.endswith(('|property_map', '|public_methods')), 'C17:',
+                         ' [the notify signal of an inherited property is then searched from the derived class, and a same-named signal there is connected instead]')
+    c17.run(s17)
+    ck.floor('R2.7', s17.count, 2, 'shared C17 R17.11 obligations')
